@@ -37,6 +37,20 @@ def obs_term(o):
     return "OBool true"      # an error where the spec has an answer: reported by the monitor as well
 
 
+PRELUDE = "From Coq Require Import List ZArith.\nImport ListNotations.\nFrom Asherah Require Import Metastore.Table Cases.C13Run.\nOpen Scope Z_scope."
+
+
+def kept(c):
+    """A statement the (fake) engine refused or lost, and that reported an error, is not part of the table's history."""
+    return [(o, b) for o, b in zip(c["ops"], c["obs"]) if not (o.get("fault") and b["r"] == "err")]
+
+
+def compare(tag, cases):
+    """Indices of the op sequences on which an implementation's answers differ from the key-table specification (evaluated in Coq)."""
+    terms = ["([%s], [%s])" % ("; ".join(op_term(o) for o, _ in kept(c)), "; ".join(obs_term(b) for _, b in kept(c))) for c in cases]
+    return vlib.coq_mismatches(tag, PRELUDE, "list mop * list mout", terms, "mismatches_from", shard=300)
+
+
 def main(tier, seed, replay):
     ck = Check("C13", tier, seed)
     ck.coq_theorems()
